@@ -214,6 +214,7 @@ func TestC01(t *testing.T) {
 	regressFixed(t, c, fs, "C01")
 	cfg := defaultGenCfg()
 	cfg.WrongFrozenPct = 6
+	cfg.BigAmounts = true // genesis amounts beyond 64 bit in 2 histories of 3 (outputs at machine-word boundaries, undone by walks)
 	// a small share of adversarial peer blocks (forged award / unsigned / flag-carrying / read-dropping transactions,
 	// candidates of the pool path delivered in a block): refused blocks must leave the state a function of the chain
 	cfg.Mix = func(rt *rapid.T, nm *hx.NodeMachine) hx.NOp {
